@@ -16,7 +16,7 @@ From Coq Require Import List NArith Bool Arith.
    (elaborating those is about four times cheaper than hex string literals) *)
 From Coq.Strings Require Export Byte.
 Import ListNotations.
-From OV Require Import Base.Bytes Base.Cases Base.Utf8 Gen.EdiConsts.
+From OV Require Import Base.Bytes Base.Cases Base.Utf8 Base.ErrClass Gen.EdiConsts Gen.EdiShape.
 
 (* ---- outcomes ----------------------------------------------------------------------------- *)
 (* Go slice expressions panic when out of range and the loops are fuelled: both are outcomes,
@@ -173,14 +173,14 @@ Definition LF : byte := x0a.
 (* ---- edi/reader2.go -------------------------------------------------------------------------- *)
 Record rawelem := mkRE { re_ei : nat; re_ci : nat; re_data : bytes }.
 
-(* runeCountAndHasOnlyCRLF, second result *)
+(* runeCountAndHasOnlyCRLF, second result; the runes ('\n', '\r') come from the source: Gen/EdiShape.v *)
 Fixpoint only_crlf_fuel (fuel : nat) (b : bytes) : bool :=
   match fuel with
   | O => true
   | S k => match b with
            | [] => true
            | _ => let '(r, n) := decode_rune b in
-                  (N.eqb r 10 || N.eqb r 13) && only_crlf_fuel k (skipn n b)
+                  existsb (N.eqb r) edi_blank_runes && only_crlf_fuel k (skipn n b)
            end
   end.
 Definition only_crlf (b : bytes) : bool := only_crlf_fuel (length b) b.
@@ -216,11 +216,16 @@ Fixpoint elems_to_raw (c : cfg) (i : nat) (els : list bytes) : res (list rawelem
       bind (elems_to_raw c (S i) r) (fun rest => Ok (here ++ rest))))
   end.
 
+(* the constants of the LF rule of readToken, extracted from the source (Gen/EdiShape.v):
+   if *r.segDelim.strptr == "\n" && bytes.HasSuffix(noSegDelim, crBytes) { drop utf8.RuneLen('\r') } *)
+Definition lf_rule_delim : bytes := map byte_of_N edi_lf_rule_delim.
+Definition lf_rule_suffix : bytes := map byte_of_N edi_lf_rule_suffix.
+
 Definition read_token (c : cfg) (token : bytes) : res segres :=
   if length token <? length (c_seg c) then Panic else
   bind (slice token 0 (length token - length (c_seg c))) (fun nsd =>
-  bind (if bytes_eqb (c_seg c) [LF] && has_suffix nsd [CR]
-        then slice nsd 0 (length nsd - 1) else Ok nsd) (fun nsd =>
+  bind (if bytes_eqb (c_seg c) lf_rule_delim && has_suffix nsd lf_rule_suffix
+        then slice nsd 0 (length nsd - edi_lf_rule_drop) else Ok nsd) (fun nsd =>
   bind (split_with_esc nsd (c_elem c) (optb (c_rel c))) (fun els =>
   bind (elems_to_raw c 0 els) (fun raw =>
     match raw with
@@ -249,8 +254,16 @@ Fixpoint scan_tokens (fuel : nat) (data seg rel : bytes) : res (list bytes) :=
   end.
 
 Definition is_crlf (b : byte) : bool := Byte.eqb b CR || Byte.eqb b LF.
+(* ignore_crlf: ios.NewBytesReplacingReader(r, <seq>, nil) for each extracted sequence, in order
+   (Gen/EdiShape.v: "\r" then "\n"); only single-byte sequences are modelled *)
+Fixpoint strip_seqs (xs : list bytes) (s : bytes) : bytes :=
+  match xs with
+  | [] => s
+  | [b0] :: r => strip_seqs r (filter (fun b => negb (Byte.eqb b b0)) s)
+  | _ :: r => strip_seqs r s
+  end.
 Definition strip_crlf (s : bytes) : bytes :=
-  filter (fun b => negb (Byte.eqb b LF)) (filter (fun b => negb (Byte.eqb b CR)) s).
+  strip_seqs (map (map byte_of_N) edi_ignore_crlf_strips) s.
 
 Fixpoint read_tokens (c : cfg) (toks : list bytes) : res (list segres) :=
   match toks with
@@ -270,7 +283,11 @@ Definition nv_read_all (c : cfg) (input : bytes) : res (list segres) :=
 (* ---- edi/reader.go: rawSegToNode -------------------------------------------------------------- *)
 Record edecl := mkED {
   d_index : nat; d_comp : option nat; d_empty_if_missing : bool; d_default : option bytes }.
-Definition comp_index (d : edecl) : nat := match d_comp d with Some c => c | None => 1 end.
+(* Elem.compIndex; the default comes from the source (Gen/EdiShape.v) *)
+Definition comp_index (d : edecl) : nat :=
+  match d_comp d with Some c => c | None => edi_default_comp_index end.
+(* ... and what the property says it is *)
+Definition spec_comp_index (d : edecl) : nat := match d_comp d with Some c => c | None => 1 end.
 
 (* children of the segment node: (position of the declaration, text); None = fatal ErrInvalidEDI *)
 Fixpoint matching (rel : bytes) (k : nat) (d : edecl) (raw : list rawelem) : res (list (nat * bytes)) :=
@@ -294,7 +311,7 @@ Fixpoint seg_to_node (rel : bytes) (k : nat) (decls : list edecl) (raw : list ra
             bind (seg_to_node rel (S k) ds raw) (fun o =>
               Ok (match o with Some l => Some (found ++ l) | None => None end))
         | [] =>
-            if d_empty_if_missing d || (match d_default d with Some _ => true | None => false end) then
+            if edi_use_default (d_empty_if_missing d) (match d_default d with Some _ => true | None => false end) then
               bind (seg_to_node rel (S k) ds raw) (fun o =>
                 Ok (match o with
                     | Some l => Some ((k, optb (d_default d)) :: l)
@@ -328,7 +345,7 @@ Fixpoint seg_to_node_old (rel : bytes) (k : nat) (decls : list edecl) (raw : lis
             bind (seg_to_node_old rel (S k) ds (snd fr)) (fun o =>
               Ok (match o with Some l => Some (fst fr ++ l) | None => None end))
         | [] =>
-            if d_empty_if_missing d || (match d_default d with Some _ => true | None => false end) then
+            if edi_use_default (d_empty_if_missing d) (match d_default d with Some _ => true | None => false end) then
               bind (seg_to_node_old rel (S k) ds raw) (fun o =>
                 Ok (match o with
                     | Some l => Some ((k, optb (d_default d)) :: l)
@@ -433,7 +450,7 @@ Definition exp_seg (c : cfg) (s : lseg) : segres :=
 (* logical lookup of a declared element: the values, in order, of component comp_index of every
    repetition of element index *)
 Definition lookup (s : lseg) (d : edecl) : list bytes :=
-  match comp_index d with
+  match spec_comp_index d with
   | O => []
   | S j => flat_map (fun r => match nth_error r j with Some v => [v] | None => [] end)
                     (nth (d_index d) s [])
@@ -482,11 +499,21 @@ Definition readres_eqb (a b : readres) : bool :=
   | _, _ => false
   end.
 
+(* error classes (what IsContinuableError sees), by the constructors found in the source
+   (Gen/EdiShape.v): "missing segment name" as the full reader passes it on, and a missing element *)
+Definition rcls_eqb (a b : rcls) : bool :=
+  match a, b with
+  | RcEOF, RcEOF | RcFatal, RcFatal | RcFailed, RcFailed | RcLatched, RcLatched | RcPlain, RcPlain => true
+  | _, _ => false
+  end.
+Definition fatal_classes : list rcls := [edi_reader_wrap_class; edi_missing_elem_class].
+
 Record ecase := mkECase {
   ec_cfg : cfg;
   ec_input : bytes;
   ec_raw : list segres;                      (* what NonValidatingReader.Read returned, in order *)
   ec_full : option (bytes * list edecl * list readres);  (* segment name, declarations, ediReader results *)
+  ec_fatal : list rcls;                      (* class of every fatal error the readers returned *)
   ec_logical : option (list lsegx);          (* the generator's logical segments, when the input is
                                                 edi_encode of them *)
 }.
@@ -506,6 +533,7 @@ Definition check_case (c : ecase) : bool :=
          end
   | _ => false
   end
+  && forallb (fun k => existsb (rcls_eqb k) (edi_missing_name_class :: fatal_classes)) (ec_fatal c)
   && match ec_logical c with
      | None => true
      | Some segs =>
